@@ -7,7 +7,7 @@ open VaxisModel.Model.TextField
 
 theorem insertLoop_eq {G : Type} (s : List G) (cursor : Nat) :
     ∀ (rest : List G) (i : Nat) (next : List G), i ≤ cursor →
-    insertLoop s cursor rest i next = next ++ rest.take (cursor - i) ++ s ++ rest.drop (cursor - i) := by
+    insertLoop s cursor rest i next = (next ++ rest.take (cursor - i) ++ s, rest.drop (cursor - i)) := by
   intro rest
   induction rest with
   | nil => intro i next _; simp [insertLoop]
@@ -187,7 +187,8 @@ theorem insert_refines (tf : TF G) (s : List G) (h : Inv tf) :
     · rfl
     · simp only [count, List.nil_append, Nat.sub_zero, List.length_append, List.length_take, List.length_drop]
       omega
-  · simp [abs, VaxisModel.Spec.Editor.apply, count]
+  · simp only [abs, VaxisModel.Spec.Editor.apply, count, List.nil_append, Nat.sub_zero, List.length_append,
+      List.length_take, Nat.min_eq_left hc]
 
 theorem cursorTo_refines (tf : TF G) (i : Nat) (h : Inv tf) :
     Inv (cursorTo tf i).1 ∧ abs (cursorTo tf i).1 = VaxisModel.Spec.Editor.apply isWord (abs tf) (.moveTo i) := by
